@@ -22,8 +22,10 @@ package main
 
 import (
 	"fmt"
+	"os"
 	"reflect"
 	"runtime/debug"
+	"runtime/pprof"
 	"sort"
 	"strings"
 	"sync"
@@ -52,6 +54,8 @@ func SetBool(cur realm, m, s, n string, v bool)       { sp.SetSysParamBool(m, s,
 func SetInt64(cur realm, m, s, n string, v int64)     { sp.SetSysParamInt64(m, s, n, v) }
 func SetUint64(cur realm, m, s, n string, v uint64)   { sp.SetSysParamUint64(m, s, n, v) }
 func SetBytes(cur realm, m, s, n, v string)           { sp.SetSysParamBytes(m, s, n, []byte(v)) }
+func DelBytes(cur realm, m, s, n string)              { sp.SetSysParamBytes(m, s, n, nil) }
+func EmptyBytes(cur realm, m, s, n string)            { sp.SetSysParamBytes(m, s, n, []byte{}) }
 func SetStrings(cur realm, m, s, n string, v ...string) { sp.SetSysParamStrings(m, s, n, v) }
 func AddStrings(cur realm, m, s, n string, v ...string) { sp.UpdateSysParamStrings(m, s, n, v, true) }
 func RemStrings(cur realm, m, s, n string, v ...string) { sp.UpdateSysParamStrings(m, s, n, v, false) }
@@ -79,20 +83,23 @@ func Helper(k string) { params.SetString(k, "H") }
 
 var tSetters = []string{"SetString", "SetBool", "SetInt64", "SetUint64", "SetBytes", "DelBytes", "SetStrings", "AddStrings", "RemStrings"}
 
-const pkgWrap = `package wrap
+func pkgWrap(name string) string {
+	return `package ` + name + `
 
 import sp "sys/params"
 
 func Set(m, s, n, v string) { sp.SetSysParamString(m, s, n, v) }
+func Del(m, s, n string)    { sp.SetSysParamBytes(m, s, n, nil) }
 `
+}
 
-func realmEvil(name string) string {
+func realmEvil(name, wrapPath string) string {
 	return `package ` + name + `
 
 import (
 	sp "sys/params"
 
-	"gno.land/p/verif/wrap"
+	wrap "` + wrapPath + `"
 	ab "gno.land/r/verif/ab"
 )
 
@@ -103,6 +110,8 @@ func DirectBool(cur realm, m, s, n string)      { sp.SetSysParamBool(m, s, n, tr
 func DirectInt64(cur realm, m, s, n string)     { sp.SetSysParamInt64(m, s, n, 1) }
 func DirectUint64(cur realm, m, s, n string)    { sp.SetSysParamUint64(m, s, n, 1) }
 func DirectBytes(cur realm, m, s, n, v string)  { sp.SetSysParamBytes(m, s, n, []byte(v)) }
+func DirectDel(cur realm, m, s, n string)       { sp.SetSysParamBytes(m, s, n, nil) }
+func WrappedDel(cur realm, m, s, n string)      { wrap.Del(m, s, n) }
 func DirectStrings(cur realm, m, s, n, v string) { sp.SetSysParamStrings(m, s, n, []string{v}) }
 func DirectUpdate(cur realm, m, s, n, v string) { sp.UpdateSysParamStrings(m, s, n, []string{v}, true) }
 func FuncValue(cur realm, m, s, n, v string)    { f := sp.SetSysParamString; f(m, s, n, v) }
@@ -118,7 +127,7 @@ func ViaHelper(cur realm, k string) { ab.Helper(k) }
 }
 
 var evilFns = []string{"Direct", "DirectBytes", "DirectStrings", "DirectUpdate", "FuncValue", "Deferred", "Closure", "PkgVar", "Wrapped"}
-var evilFns3 = []string{"DirectBool", "DirectInt64", "DirectUint64"}
+var evilFns3 = []string{"DirectBool", "DirectInt64", "DirectUint64", "DirectDel", "WrappedDel"}
 
 var (
 	A    = chainx.NewKey("A")
@@ -127,23 +136,70 @@ var (
 
 	targets = []string{"gno.land/r/vm", "gno.land/r/verif/ab", "gno.land/r/verif/ab/cd", "gno.land/r/verif/abc", "gno.land/r/sys/params/sub"}
 	evils   = []string{"gno.land/r/verif/evil", "gno.land/r/sys/params/evil"}
+
+	// attacker realm PATH menu: every deployable way a path can embed / extend / truncate / imitate the designated path
+	// gno.land/r/sys/params (suffix, prefix, both, last element(s), parent, versioned twin, one-letter extensions).
+	lookalikes = []string{
+		"gno.land/r/verif/r/sys/params",        // ends in /r/sys/params
+		"gno.land/r/verif/sys/params",          // ends in /sys/params
+		"gno.land/r/verif/params",              // same last element
+		"gno.land/r/verif/gno-land/r/sys/params", // embeds the whole designated path after a prefix
+		"gno.land/r/sys/params2",               // designated path + one character
+		"gno.land/r/sys/paramsx",               //
+		"gno.land/r/sys/params_x",              //
+		"gno.land/r/sys/param",                 // designated path minus one character
+		"gno.land/r/sys",                       // parent of the designated path
+		"gno.land/r/sys/params/v2",             // versioned twin: same package NAME (params), other path
+		"gno.land/r/sys/params/params",         // under the designated path, same last element
+		"gno.land/r/sys/params/r/sys/params",   // starts with AND ends in the designated path
+		"gno.land/r/params",                    // last element directly under /r/
+		"gno.land/r/sys-params/params",         //
+	}
+	// /p/ wrappers (the immediate caller frame of the native is the wrapper package)
+	wrappers = []string{"gno.land/p/verif/wrap", "gno.land/p/sys/params", "gno.land/p/verif/r/sys/params"}
+	// paths outside the chain domain: not deployable on the unchanged tree; each case is ONE tx {MsgAddPackage, MsgCall}
+	foreignDomain = []string{"xgno.land/r/sys/params", "evil.land/r/sys/params", "gno.land.evil.land/r/sys/params", "land/r/sys/params"}
 )
 
 func last(p string) string { return p[strings.LastIndex(p, "/")+1:] }
+
+// pkgName: the package name a path must declare (version suffix elements are skipped, like gno.LastPathElement)
+func pkgName(p string) string {
+	n := last(p)
+	if len(n) >= 2 && n[0] == 'v' && strings.Trim(n[1:], "0123456789") == "" {
+		return last(p[:strings.LastIndex(p, "/")])
+	}
+	return n
+}
+
+func evilWrap(e string) string {
+	if e == "gno.land/r/verif/evil" || e == "gno.land/r/sys/params/evil" {
+		return wrappers[0]
+	}
+	return wrappers[1]
+}
 
 func gtx(msg std.Msg) std.Tx {
 	return std.Tx{Msgs: []std.Msg{msg}, Fee: std.NewFee(100_000_000, std.NewCoin("ugnot", 1_000_000)), Signatures: []std.Signature{{}}}
 }
 
-func newChain() *chainx.Chain {
+// newChain: full = with the whole attacker path menu and all wrappers deployed (parts B and C run there); the lite
+// genesis (part A) carries only the two original attacker realms and the first wrapper, which makes it much cheaper.
+func newChain(full bool) *chainx.Chain {
 	s := chainx.Spec{Keys: keys, Fund: 1_000_000_000_000_000}
 	s.GenesisTxs = []std.Tx{gtx(chainx.AddPkg(A.Addr, pathD, map[string]string{"p.gno": realmD}))}
 	for _, t := range targets {
 		s.GenesisTxs = append(s.GenesisTxs, gtx(chainx.AddPkg(A.Addr, t, map[string]string{"t.gno": realmT(last(t))})))
 	}
-	s.GenesisTxs = append(s.GenesisTxs, gtx(chainx.AddPkg(A.Addr, "gno.land/p/verif/wrap", map[string]string{"w.gno": pkgWrap})))
-	for _, e := range evils {
-		s.GenesisTxs = append(s.GenesisTxs, gtx(chainx.AddPkg(A.Addr, e, map[string]string{"e.gno": realmEvil(last(e))})))
+	ws, es := wrappers[:1], evils
+	if full {
+		ws, es = wrappers, append(append([]string{}, evils...), lookalikes...)
+	}
+	for _, w := range ws {
+		s.GenesisTxs = append(s.GenesisTxs, gtx(chainx.AddPkg(A.Addr, w, map[string]string{"w.gno": pkgWrap(pkgName(w))})))
+	}
+	for _, e := range es {
+		s.GenesisTxs = append(s.GenesisTxs, gtx(chainx.AddPkg(A.Addr, e, map[string]string{"e.gno": realmEvil(pkgName(e), evilWrap(e))})))
 	}
 	c, err := chainx.New(memdb.NewMemDB(), s)
 	if err != nil {
@@ -241,6 +297,18 @@ func isModuleKey(k string) bool {
 	return ok
 }
 
+// moduleOwned: keys under a registered module's own prefix (auth:*, bank:*, node:*, vm:p:*); vm:<realm>:* belongs to that realm.
+func moduleOwned(k string) bool {
+	parts := strings.Split(k, ":")
+	switch parts[0] {
+	case "auth", "bank", "node":
+		return len(parts) >= 2
+	case "vm":
+		return len(parts) >= 2 && parts[1] == "p"
+	}
+	return false
+}
+
 // validateModules re-decodes every module's Params from raw store values and runs the module's own Validate.
 func validateModules(p map[string]string) (string, string) {
 	for _, mod := range []string{"auth", "bank", "vm"} {
@@ -277,6 +345,7 @@ type caseDef struct {
 	part  string // A, B, C
 	label string
 	msg   func() std.Msg
+	msgs  func() []std.Msg // alternative to msg: a multi-message transaction
 	realm string // part A: executing realm whose namespace the write may touch
 	alt   string // part A: an additional acceptable namespace (code of another realm executing on behalf)
 }
@@ -301,7 +370,13 @@ func firstLine(s string) string {
 func runCase(c *chainx.Chain, pre map[string]string, cd caseDef) {
 	pop := c.Push()
 	defer pop()
-	tx := c.MakeTx(keys, []std.Msg{cd.msg()}, chainx.TxOpt{GasWanted: 50_000_000})
+	var msgs []std.Msg
+	if cd.msgs != nil {
+		msgs = cd.msgs()
+	} else {
+		msgs = []std.Msg{cd.msg()}
+	}
+	tx := c.MakeTx(keys, msgs, chainx.TxOpt{GasWanted: 50_000_000})
 	res := c.DeliverTx(tx)
 	nTx.Add(1)
 	r.Eval()
@@ -353,6 +428,17 @@ func runCase(c *chainx.Chain, pre map[string]string, cd caseDef) {
 	cls := cd.part + ":"
 	if failed {
 		cls += "rejected"
+		if cd.part == "B" {
+			// make vacuity visible: did the attempt reach the native's caller gate, or fail earlier (undeployable path)?
+			switch {
+			case strings.Contains(res.Log, "can only be used from"):
+				cls += "-by-caller-gate"
+			case strings.Contains(res.Log, "invalid domain"):
+				cls += "-undeployable-path"
+			default:
+				cls += "-other"
+			}
+		}
 		if len(diff) > 0 {
 			r.Violation("failed-tx-changed-params:"+cd.part+":"+cd.label, det(nil))
 		}
@@ -397,6 +483,15 @@ func runCase(c *chainx.Chain, pre map[string]string, cd caseDef) {
 			}
 			r.Violation(class, det(map[string]any{"offending_key": show(k)}))
 		}
+		for _, k := range diff {
+			if _, was := pre[k]; !was || !moduleOwned(k) {
+				continue
+			}
+			if _, still := post[k]; !still {
+				// no module's validation accepts "no value": an accepted write that removes a module-owned key bypassed it
+				r.Violation("module-owned-parameter-deleted:"+k, det(map[string]any{"deleted_key": k}))
+			}
+		}
 		if bad, why := validateModules(post); bad != "" {
 			// not part of the oracle: what the next ordinary transaction experiences (written into the replay artefact)
 			fu := c.DeliverTx(c.MakeTx(keys, []std.Msg{bank.MsgSend{FromAddress: A.Addr, ToAddress: chainx.NewKey("Z").Addr, Amount: std.Coins{std.NewCoin("ugnot", 1)}}}, chainx.TxOpt{}))
@@ -415,6 +510,11 @@ func callD(fn string, args ...string) func() std.Msg {
 
 func main() {
 	debug.SetGCPercent(400)
+	if pf := os.Getenv("C13_CPUPROFILE"); pf != "" {
+		f, _ := os.Create(pf)
+		pprof.StartCPUProfile(f)
+		defer pprof.StopCPUProfile()
+	}
 	r = vk.New("exploration")
 	r.SetBudget(150*time.Second, 25*time.Minute)
 
@@ -480,8 +580,10 @@ func main() {
 		{"node", "valset", "proposed", "x"},
 		{"vm", "gno.land/r/verif/ab", "seedSetString", "pwned"},
 		{"vm", "gno.land/r/verif/evil", "mine", "x"},
+		{"node", "valset", "current", "x"},
+		{"auth", "p", "unrestricted_addrs", A.Addr.String()},
 	}
-	for _, e := range evils {
+	for _, e := range append(append([]string{}, evils...), lookalikes...) {
 		for _, v := range victims {
 			for _, fn := range evilFns {
 				e, v, fn := e, v, fn
@@ -504,8 +606,41 @@ func main() {
 			src := fmt.Sprintf(body, v[0], v[1], v[2], v[3])
 			cases = append(cases, caseDef{part: "B", label: "MsgRun{" + strings.Join(v, ",") + "}#" + fmt.Sprint(len(body)), msg: func() std.Msg { return chainx.Run(A.Addr, nil, src) }})
 		}
+		for _, w := range wrappers[1:] {
+			src := fmt.Sprintf("package main\n\nimport w %q\n\nfunc main() { w.Set(%q, %q, %q, %q) }\n", w, v[0], v[1], v[2], v[3])
+			cases = append(cases, caseDef{part: "B", label: "MsgRun{" + strings.Join(v, ",") + "}via:" + w, msg: func() std.Msg { return chainx.Run(A.Addr, nil, src) }})
+		}
+		for _, w := range wrappers {
+			src := fmt.Sprintf("package main\n\nimport w %q\n\nfunc main() { w.Del(%q, %q, %q) }\n", w, v[0], v[1], v[2])
+			cases = append(cases, caseDef{part: "B", label: "MsgRun{" + strings.Join(v[:3], ",") + "}del-via:" + w, msg: func() std.Msg { return chainx.Run(A.Addr, nil, src) }})
+		}
+		src := fmt.Sprintf("package main\n\nimport sp \"sys/params\"\n\nfunc main() { sp.SetSysParamBytes(%q, %q, %q, nil) }\n", v[0], v[1], v[2])
+		cases = append(cases, caseDef{part: "B", label: "MsgRun{" + strings.Join(v[:3], ",") + "}del", msg: func() std.Msg { return chainx.Run(A.Addr, nil, src) }})
+		// realms outside the chain domain: deploy + call in ONE transaction (the deploy must fail, or the call must)
+		for _, e := range foreignDomain {
+			e := e
+			for _, fn := range []string{"Direct", "DirectDel"} {
+				fn := fn
+				args := v
+				if fn == "DirectDel" {
+					args = v[:3]
+				}
+				cases = append(cases, caseDef{part: "B", label: fmt.Sprintf("deploy+call %s.%s(%s)", e, fn, strings.Join(args, ",")), msgs: func() []std.Msg {
+					return []std.Msg{chainx.AddPkg(A.Addr, e, map[string]string{"e.gno": realmEvil(pkgName(e), wrappers[0])}), chainx.Call(A.Addr, nil, e, fn, args...)}
+				}})
+			}
+		}
 	}
 	// ---- part C: the designated realm
+	// one chain is created now (serially: stdlib cache warm-up); its seeded params store gives the list of EXISTING keys
+	t0 := time.Now()
+	first := newChain(true)
+	firstPre := pv(first)
+	var preKeys []string
+	for k := range firstPre {
+		preKeys = append(preKeys, k)
+	}
+	sort.Strings(preKeys)
 	addr := A.Addr.String()
 	type w struct {
 		fn   string
@@ -572,35 +707,88 @@ func main() {
 			w{"SetBytes", append(append([]string{}, n...), "gno.land")}, w{"SetStrings", append(append([]string{}, n...), "ugnot")},
 			w{"AddStrings", append(append([]string{}, n...), "ugnot")}, w{"RemStrings", append(append([]string{}, n...), "ugnot")})
 	}
+	// delete / empty / zero-value menu: EVERY key that exists in the seeded params store (module parameters, chain-managed node
+	// keys, realm-scoped keys) x every setter with its nil / zero-length / zero value (SetBytes(nil) is the keeper's delete)
+	nExisting := 0
+	for _, k := range preKeys {
+		i, j := strings.Index(k, ":"), strings.LastIndex(k, ":")
+		if i < 0 || j <= i {
+			continue // byte counters (_realmmeta_<realm>) are not addressable as module:submodule:name
+		}
+		nExisting++
+		n := []string{k[:i], k[i+1 : j], k[j+1:]}
+		ws = append(ws, w{"DelBytes", n}, w{"EmptyBytes", n}, w{"SetString", append(append([]string{}, n...), "")}, w{"SetBool", append(append([]string{}, n...), "false")},
+			w{"SetInt64", append(append([]string{}, n...), "0")}, w{"SetUint64", append(append([]string{}, n...), "0")},
+			w{"SetStrings", n}, w{"AddStrings", n}, w{"RemStrings", n})
+	}
+	for _, n := range names {
+		ws = append(ws, w{"DelBytes", n}, w{"EmptyBytes", n})
+	}
+	seenC := map[string]bool{}
 	for _, x := range ws {
-		cases = append(cases, caseDef{part: "C", label: fmt.Sprintf("%s(%s)", x.fn, show(strings.Join(x.args, ","))), msg: callD(x.fn, x.args...)})
+		lbl := fmt.Sprintf("%s(%s)", x.fn, show(strings.Join(x.args, ",")))
+		if seenC[lbl] {
+			continue
+		}
+		seenC[lbl] = true
+		cases = append(cases, caseDef{part: "C", label: lbl, msg: callD(x.fn, x.args...)})
 	}
 
 	// the small parts first (B, C), then A: a budget cap can then only cut the tail of the key enumeration
 	sort.SliceStable(cases, func(i, j int) bool { return cases[i].part != "A" && cases[j].part == "A" })
 	r.Sample(map[string]any{"case": "gno.land/r/verif/ab.SetString(cd:seedSetString)", "meaning": "a realm whose path is a prefix of gno.land/r/verif/ab/cd aims at that realm's existing parameter"})
 	r.Sample(map[string]any{"case": "gno.land/r/sys/params/evil.Deferred(vm,p,chain_domain,evil.land)", "meaning": "a realm living under the designated path calls the module setter in a deferred call"})
+	r.Sample(map[string]any{"case": "gno.land/r/verif/r/sys/params.DirectDel(vm,p,storage_price)", "meaning": "a user realm whose path ENDS in /r/sys/params tries to delete a module parameter through SetSysParamBytes(nil)"})
+	r.Sample(map[string]any{"case": "DelBytes(vm,p,storage_price)", "meaning": "the designated realm deletes a module-owned key (SetSysParamBytes(nil)): must be rejected by the module's validation, the key must survive"})
 	r.Sample(map[string]any{"case": "SetString(auth,p,initial_gasprice,1ugnot/1000gas)", "meaning": "the designated realm writes a module parameter; the stored bytes must decode into auth.Params and validate"})
 
-	// one chain per worker, created lazily (bounded), the first one serially (stdlib cache warm-up)
-	t0 := time.Now()
-	pool := make(chan *chainx.Chain, 64)
-	first := newChain()
-	pool <- first
+	// Two tracks. Parts B and C (first in the case order) run on the FULL warm-up chain, part A beside it on up to 6 lite
+	// chains created lazily; every chain is owned by one goroutine at a time.
 	fmt.Printf("warm-up chain: %.1fs, %d cases\n", time.Since(t0).Seconds(), len(cases))
-	var created atomic.Int64
-	created.Store(1)
-	pres := sync.Map{}
+	nBC := 0
+	for nBC < len(cases) && cases[nBC].part != "A" {
+		nBC++
+	}
 	var done atomic.Int64
 	const chunk = 64
-	nChunks := (len(cases) + chunk - 1) / chunk
+	runChunk := func(c *chainx.Chain, pre map[string]string, cs []caseDef) {
+		for _, cd := range cs {
+			if r.Expired() {
+				return
+			}
+			runCase(c, pre, cd)
+			r.Distinct(cd.part + cd.label)
+			done.Add(1)
+		}
+	}
+	preOf := func(c *chainx.Chain) map[string]string {
+		pre := pv(c)
+		if bad, why := validateModules(pre); bad != "" {
+			r.HarnessError("genesis module params do not validate: %s %s", bad, why)
+		}
+		return pre
+	}
+	var wg sync.WaitGroup
+	wg.Add(1)
+	go func() {
+		defer wg.Done()
+		if bad, why := validateModules(firstPre); bad != "" {
+			r.HarnessError("genesis module params do not validate: %s %s", bad, why)
+		}
+		runChunk(first, firstPre, cases[:nBC])
+		fmt.Printf("parts B+C track done: %.1fs\n", time.Since(t0).Seconds())
+	}()
+	pool := make(chan *chainx.Chain, 64)
+	var created atomic.Int64
+	pres := sync.Map{}
+	nChunks := (len(cases) - nBC + chunk - 1) / chunk
 	r.ParFor(nChunks, func(ci int) {
 		var c *chainx.Chain
 		select {
 		case c = <-pool:
 		default:
-			if created.Add(1) <= 8 {
-				c = newChain()
+			if created.Add(1) <= 6 {
+				c = newChain(false)
 			} else {
 				c = <-pool
 			}
@@ -610,21 +798,14 @@ func main() {
 		if v, ok := pres.Load(c); ok {
 			pre = v.(map[string]string)
 		} else {
-			pre = pv(c)
+			pre = preOf(c)
 			pres.Store(c, pre)
-			if bad, why := validateModules(pre); bad != "" {
-				r.HarnessError("genesis module params do not validate: %s %s", bad, why)
-			}
 		}
-		for i := ci * chunk; i < (ci+1)*chunk && i < len(cases); i++ {
-			if r.Expired() {
-				return
-			}
-			runCase(c, pre, cases[i])
-			r.Distinct(cases[i].part + cases[i].label)
-			done.Add(1)
-		}
+		lo := nBC + ci*chunk
+		runChunk(c, pre, cases[lo:min(lo+chunk, len(cases))])
 	})
+	fmt.Printf("part A track done: %.1fs\n", time.Since(t0).Seconds())
+	wg.Wait()
 	nA, nB, nC := 0, 0, 0
 	for _, c := range cases {
 		switch c.part {
@@ -639,8 +820,12 @@ func main() {
 	r.Assumptions = []string{
 		"the designated realm is a stub deployed at gno.land/r/sys/params exposing the seven sys/params setters; it stands for an executed governance proposal (the real realm puts GovDAO in front of the same natives)",
 		"every case is a single transaction from the same seeded state (open block, cache-wrap snapshot/rollback); the params store is read from the deliver state after the tx",
+		"an accepted write that REMOVES a module-owned key (auth:*, bank:*, node:*, vm:p:*) that existed before counts as a validation bypass: no module's WillSetParam accepts a nil value",
+		"attacker realm paths are deployed in genesis (all menu paths are deployable on the unchanged tree); paths outside the chain domain cannot be deployed and are tried as one {MsgAddPackage, MsgCall} transaction",
 		"a key belongs to realm R iff it is exactly vm:<R>:<name> with a ':'-free name (or R's byte counter _realmmeta_<R>); module parameter = <module>:p:<field of the module's Params struct> or node:{p:halt_height,p:halt_min_version,valset:dirty,valset:proposed}",
 	}
-	r.Finish(fmt.Sprintf("A: %d (realm, write entry point, key) cases: all key strings of <=2 atoms (+ <=3 atoms on a subset in quick, everywhere in thorough) over a 12-atom hostile menu x 9 entry points x 5 colliding realms; B: %d attempts to reach the module setters from non-designated code; C: %d writes by the designated realm at validation boundaries / wrong types / unknown names; each one tx on the real app, judged by the diff of all params keys and by re-validating the stored module parameters", nA, nB, nC),
-		done.Load() == int64(len(cases)), map[string]any{"cases": len(cases), "cases_done": done.Load(), "distinct_param_states": nStates.Load(), "transactions": nTx.Load(), "atoms": len(atoms)})
+	pprof.StopCPUProfile()
+	r.Finish(fmt.Sprintf("A: %d (realm, write entry point, key) cases: all key strings of <=2 atoms (+ <=3 atoms on a subset in quick, everywhere in thorough) over a 12-atom hostile menu x 9 entry points x 5 colliding realms; B: %d attempts to reach the module setters (all 7 + delete) from non-designated code: 16 deployed attacker realms whose paths embed/extend/truncate/imitate the designated path x 10 victim keys x 14 caller shapes, 3 /p/ wrappers and MsgRun scripts, 4 foreign-domain paths as deploy+call transactions; C: %d writes by the designated realm at validation boundaries / wrong types / unknown names, plus every existing key x {delete, empty bytes, zero value of every setter}; each one tx on the real app, judged by the diff of all params keys and by re-validating the stored module parameters", nA, nB, nC),
+		done.Load() == int64(len(cases)), map[string]any{"cases": len(cases), "cases_done": done.Load(), "distinct_param_states": nStates.Load(), "transactions": nTx.Load(), "atoms": len(atoms),
+			"attacker_realm_paths": len(evils) + len(lookalikes) + len(foreignDomain), "wrapper_packages": len(wrappers), "existing_keys_in_value_menu": nExisting})
 }
